@@ -897,6 +897,11 @@ func (f *Frame) defaultCall(instr ssa.Instruction, sig *types.Signature, eff eff
 						f.havocElems(f.val(mi.X))
 						continue
 					}
+					// a pointer boxed into interface{} (json.Unmarshal(data, &x)): its pointee is written
+					if _, isPtr := mi.X.Type().Underlying().(*types.Pointer); isPtr {
+						f.havocPointee(f.val(mi.X), mi.X.Type())
+						continue
+					}
 				}
 			}
 			if args[wi].K == VSlice {
@@ -941,11 +946,35 @@ func callName(instr ssa.Instruction) string {
 func (f *Frame) havocPointee(p *Val, pt types.Type) {
 	if p.K == VAddr {
 		f.st = f.st.Clone()
-		f.store(p.Addr, f.freshVal(p.Addr.T, "hv"), f.st)
+		nv := f.freshVal(p.Addr.T, "hv")
+		f.store(p.Addr, nv, f.st)
+		f.assumeWF(nv)
+		f.assumeAllocated(nv)
+		return
+	}
+	if p.K == VScalar {
+		// a pointer to a heap object: every field of that object may have been written
+		if ptr, ok := pt.Underlying().(*types.Pointer); ok && isStructType(ptr.Elem()) {
+			m := map[string]*Sort{}
+			f.E.addLeafKeys(m, "F$"+typeKey(ptr.Elem()), ptr.Elem(), AObj)
+			f.st = f.st.Clone()
+			for _, k := range sortedKeys(m) {
+				s := m[k]
+				if s.K != SArray {
+					continue
+				}
+				cur := f.st.Get(k, s)
+				f.E.noteVars(cur)
+				f.st.Set(k, s, f.E.name(Store(cur, p.X, f.fresh("hv$"+k, s.Elem)), f.prefix+"hv$"+k))
+			}
+			return
+		}
+		f.E.Assumes["a call writes through a pointer of type "+pt.String()+" whose pointee is not modelled"] = true
 		return
 	}
 	if p.K == VIface {
-		return // pointer boxed in interface: not tracked
+		f.E.Assumes["a call writes through a pointer boxed in an interface value that is not a direct conversion at the call site: not modelled"] = true
+		return
 	}
 }
 
@@ -1834,9 +1863,15 @@ func (e *Enc) callModKeys(c *ssa.CallCommon, m map[string]*Sort) {
 						e.addLeafKeys(m, "M$"+typeKey(sl.Elem()), sl.Elem(), AElem)
 						continue
 					}
-					if p, k, ok := e.staticAddrKey(c.Args[wi]); ok {
-						if pt, ok := c.Args[wi].Type().Underlying().(*types.Pointer); ok {
+					av := c.Args[wi]
+					if mi, ok := av.(*ssa.MakeInterface); ok {
+						av = mi.X // a pointer boxed into interface{} at the call site
+					}
+					if pt, ok := av.Type().Underlying().(*types.Pointer); ok {
+						if p, k, ok := e.staticAddrKey(av); ok {
 							e.addLeafKeys(m, p, pt.Elem(), k)
+						} else if isStructType(pt.Elem()) {
+							e.addLeafKeys(m, "F$"+typeKey(pt.Elem()), pt.Elem(), AObj)
 						}
 					}
 				}
